@@ -35,6 +35,45 @@ varintWidth varintTaggedPutVarint32(uint8_t *p, uint32_t v)
 varintWidth varintTaggedGetVarint32(const uint8_t *z, uint32_t *r)
     __attribute__((weak));
 
+
+/* The quick macros are also called with compile-time constant widths (as a
+ * caller with a fixed record layout would): a fast path selected by
+ * __builtin_constant_p is only reachable this way. */
+#define LIT_PUT(M, dst, v, w)                                                  \
+    switch (w) {                                                               \
+    case 1: M(dst, v, VARINT_WIDTH_8B); break;                                 \
+    case 2: M(dst, v, VARINT_WIDTH_16B); break;                                \
+    case 3: M(dst, v, VARINT_WIDTH_24B); break;                                \
+    case 4: M(dst, v, VARINT_WIDTH_32B); break;                                \
+    case 5: M(dst, v, VARINT_WIDTH_40B); break;                                \
+    case 6: M(dst, v, VARINT_WIDTH_48B); break;                                \
+    case 7: M(dst, v, VARINT_WIDTH_56B); break;                                \
+    case 8: M(dst, v, VARINT_WIDTH_64B); break;                                \
+    default: M(dst, v, VARINT_WIDTH_72B); break;                               \
+    }
+#define LIT_GET(M, src, w, r)                                                  \
+    switch (w) {                                                               \
+    case 1: M(src, VARINT_WIDTH_8B, r); break;                                 \
+    case 2: M(src, VARINT_WIDTH_16B, r); break;                                \
+    case 3: M(src, VARINT_WIDTH_24B, r); break;                                \
+    case 4: M(src, VARINT_WIDTH_32B, r); break;                                \
+    case 5: M(src, VARINT_WIDTH_40B, r); break;                                \
+    case 6: M(src, VARINT_WIDTH_48B, r); break;                                \
+    case 7: M(src, VARINT_WIDTH_56B, r); break;                                \
+    default: M(src, VARINT_WIDTH_64B, r); break;                               \
+    }
+#define LIT_GETRV(M, src, w, r)                                                \
+    switch (w) {                                                               \
+    case 1: r = M(src, VARINT_WIDTH_8B); break;                                \
+    case 2: r = M(src, VARINT_WIDTH_16B); break;                               \
+    case 3: r = M(src, VARINT_WIDTH_24B); break;                               \
+    case 4: r = M(src, VARINT_WIDTH_32B); break;                               \
+    case 5: r = M(src, VARINT_WIDTH_40B); break;                               \
+    case 6: r = M(src, VARINT_WIDTH_48B); break;                               \
+    case 7: r = M(src, VARINT_WIDTH_56B); break;                               \
+    default: r = M(src, VARINT_WIDTH_64B); break;                              \
+    }
+
 #define ARENA 64
 #define BASE 20
 
@@ -43,6 +82,7 @@ typedef struct ctx {
     uint8_t arena[ARENA];
     uint8_t fill;
     unsigned align;
+    int lit; /* call the quick macros with literal widths */
     const char *fam;
     const char *put;
     uint64_t v;
@@ -143,7 +183,11 @@ static void do_tagged(ctx *c, unsigned put, uint64_t v, unsigned wextra) {
         if (put == 1) {
             len = varintTaggedPut64FixedWidth(dst, v, (varintWidth)w);
         } else {
-            varintTaggedPut64FixedWidthQuick_(dst, v, w);
+            if (c->lit) {
+                LIT_PUT(varintTaggedPut64FixedWidthQuick_, dst, v, w)
+            } else {
+                varintTaggedPut64FixedWidthQuick_(dst, v, w);
+            }
             len = w;
         }
         CHECK_LEN(c, "tagged.fixed", "encoder return", len, w);
@@ -239,7 +283,11 @@ static void do_external(ctx *c, int be, unsigned put, uint64_t v,
             varintExternalBigEndianPutFixedWidth(dst, v, (varintWidth)w);
             break;
         default:
-            varintExternalBigEndianPutFixedWidthQuick_(dst, v, w);
+            if (c->lit) {
+                LIT_PUT(varintExternalBigEndianPutFixedWidthQuick_, dst, v, w)
+            } else {
+                varintExternalBigEndianPutFixedWidthQuick_(dst, v, w);
+            }
             break;
         }
     } else {
@@ -253,10 +301,18 @@ static void do_external(ctx *c, int be, unsigned put, uint64_t v,
             varintExternalPutFixedWidth(dst, v, (varintWidth)w);
             break;
         case 2:
-            varintExternalPutFixedWidthQuick_(dst, v, w);
+            if (c->lit) {
+                LIT_PUT(varintExternalPutFixedWidthQuick_, dst, v, w)
+            } else {
+                varintExternalPutFixedWidthQuick_(dst, v, w);
+            }
             break;
         case 3:
-            varintExternalPutFixedWidthQuickMedium_(dst, v, w);
+            if (c->lit) {
+                LIT_PUT(varintExternalPutFixedWidthQuickMedium_, dst, v, w)
+            } else {
+                varintExternalPutFixedWidthQuickMedium_(dst, v, w);
+            }
             break;
         default:
             varintExternalPutFixedWidthBig(dst, (__uint128_t)v, (varintWidth)w);
@@ -289,18 +345,34 @@ static void do_external(ctx *c, int be, unsigned put, uint64_t v,
         r = varintExternalBigEndianGet(dst, (varintWidth)w);
         CHECK_VAL(c, "externalBE.get", "Get", r, v);
         r = ~v;
-        varintExternalBigEndianGetQuick_(dst, w, r);
+        if (c->lit) {
+            LIT_GET(varintExternalBigEndianGetQuick_, dst, w, r)
+        } else {
+            varintExternalBigEndianGetQuick_(dst, w, r);
+        }
         CHECK_VAL(c, "externalBE.getquick", "GetQuick_", r, v);
     } else {
         r = varintExternalGet(dst, (varintWidth)w);
         CHECK_VAL(c, "externalLE.get", "Get", r, v);
         r = ~v;
-        varintExternalGetQuick_(dst, w, r);
+        if (c->lit) {
+            LIT_GET(varintExternalGetQuick_, dst, w, r)
+        } else {
+            varintExternalGetQuick_(dst, w, r);
+        }
         CHECK_VAL(c, "externalLE.getquick", "GetQuick_", r, v);
         r = ~v;
-        varintExternalGetQuickMedium_(dst, w, r);
+        if (c->lit) {
+            LIT_GET(varintExternalGetQuickMedium_, dst, w, r)
+        } else {
+            varintExternalGetQuickMedium_(dst, w, r);
+        }
         CHECK_VAL(c, "externalLE.getquickmedium", "GetQuickMedium_", r, v);
-        r = varintExternalGetQuickMediumReturnValue_(dst, w);
+        if (c->lit) {
+            LIT_GETRV(varintExternalGetQuickMediumReturnValue_, dst, w, r)
+        } else {
+            r = varintExternalGetQuickMediumReturnValue_(dst, w);
+        }
         CHECK_VAL(c, "externalLE.getquickmediumrv",
                   "GetQuickMediumReturnValue_", r, v);
         __uint128_t rb = varintBigExternalGet(dst, (varintWidth)w);
@@ -671,7 +743,7 @@ static void one(ctx *c, unsigned fam, unsigned put, uint64_t v,
         vf_class(cls);
     }
     if (nontriv) {
-        uint64_t h = vf_mix(vf_mix(vf_mix(fam, put % 5), c->v), wextra % 9);
+        uint64_t h = vf_mix(vf_mix(vf_mix(fam, put % 5 + 8 * (unsigned)c->lit), c->v), wextra % 9);
         vf_nontrivial(h);
     }
 }
@@ -682,11 +754,16 @@ void vf_run(vf_rd *r, vf_report *rep) {
     c.rep = rep;
     unsigned fam = vf_u8(r) % F_COUNT;
     unsigned put = vf_u8(r);
-    c.align = vf_u8(r) & 15;
+    {
+        unsigned ab = vf_u8(r);
+        c.align = ab & 15;
+        c.lit = (ab >> 4) & 1;
+    }
     c.fill = vf_u8(r);
     unsigned n = 0;
-    vf_desc(rep, "family=%s align=%u fill=0x%02x",
-            fam == F_SIGNED ? "signed" : vf_family_name[fam], c.align, c.fill);
+    vf_desc(rep, "family=%s align=%u%s fill=0x%02x",
+            fam == F_SIGNED ? "signed" : vf_family_name[fam], c.align,
+            c.lit ? " literal-widths" : "", c.fill);
     do {
         if (fam == F_SIGNED) {
             unsigned field = vf_u8(r);
@@ -767,6 +844,7 @@ void vf_sweep(vf_report *rep) {
                 for (unsigned put = 0; put < nput && !rep->violated; put++) {
                     unsigned nw = (put == 0 || fam >= VF_CHAINED) ? 1 : 9;
                     for (unsigned wx = 0; wx < nw && !rep->violated; wx++) {
+                        c.lit = (int)((v ^ wx) & 1);
                         one(&c, fam, put, v, wx);
                         evals++;
                     }
